@@ -9,6 +9,8 @@ def c12(ck):
     mc = core.mc_or_die("MC_Sanitize", "MC_Sanitize" if quick else "MC_Sanitize_thorough", workers=8, coverage=True, timeout=3000)
     util.vacuity(ck, mc, "Sanitize", ["BuildBitmap", "Classify", "Done", "ClassifyWord"])
     ck.add_mc(mc, "all (layout, stack mapping, word sequence) triples of the small universe (bucket size 4, 4 pre-filter bits incl. aliasing buckets, boundary words); invariants C12 (direct classifier), PrefilterSound, StepwiseIsRun")
+    util.apalache_inductive(ck, "SanitizeAp", "over full 64-bit words: the small-integer test keeps exactly the words in -4096..4096 (two's complement), and the pre-filter has the bit of every address inside an executable mapping set (any mapping below 2^64)",
+                            obligations=[("Init", "C12_SmallIntKept", 0), ("Init", "C12_PrefilterSound", 0)])
     ex = core.mc_or_die("MC_Sanitize", "MC_Sanitize_export", workers=4, timeout=900)
     cases = ex["printed"].get("REPLAY", [])
     if not cases:
